@@ -12,19 +12,30 @@ specification of difflib's get_opcodes/get_grouped_opcodes applied to the real
 matching blocks (`grouped`, `vb`).
 
 T2: diff text, parsed hunks, re-serialisation, statistics, patched output and
-error kind, for both matchers (patiencediff and difflib.SequenceMatcher), for
-perturbed old texts and for a malformed-patch stream (accept/reject + kind).
-Oracle (independent of the model): patched(a, diff(a,b)) == b; hunks survive
-as_bytes → parse; stats == lines outside the matching blocks; a perturbed old
-text gives either PatchConflict or, when every hunk still matches, exactly the
-spliced text.
+error kind INCLUDING the PatchConflict line number (compared exactly; no
+tolerances), line splitting of the written diff (`splitnl` against
+BytesIO.readlines), for both matchers (patiencediff and difflib.SequenceMatcher),
+for perturbed old texts and for a malformed-patch stream (accept/reject + kind).
+Oracle (independent of the model): patched(a, diff(a,b)) == b, also through byte
+streams (join, readlines); hunks survive as_bytes -> parse; stats == lines outside
+the matching blocks; a perturbed old text gives either PatchConflict carrying the
+1-based number of the first old line that differs or is missing (computed from
+absolute hunk positions) or, when every hunk still matches, exactly the spliced
+text.
 
-Conflict reporting on the unchanged tree: PatchConflict.__init__ calls
-`orig_line.rstrip("\\n")` on bytes and raises TypeError, and a text that ends
-inside a hunk makes `next()` raise StopIteration inside the generator
-(RuntimeError).  Both are reported by the oracle with the families
-`patch-conflict-typeerror` / `patch-short-text-runtimeerror`; T2 accepts the
-as-written and the intended error on those inputs.
+Perturbation families of the old text: change / delete / insert / truncate /
+append one line, truncate inside a hunk, shift (k copies of a context line put in
+front of a hunk, so its context is present but k lines late), dup-block (the
+hunk's old side duplicated in front of it, where a fuzzy patcher would take it),
+swap (two adjacent differing lines exchanged), drop-prefix (text starts k lines
+late).  Text families: all pairs over {a,b,c} up to a length, random edited
+copies up to 30 lines, long texts (100-220 lines, 7-14 scattered edits, > 6
+hunks), context sizes 0,1,2,3,5,10,50 (larger than many texts).
+
+History: fix fc5e87d made both StopIteration sites of iter_patched_from_hunks and
+the bytes/str mix-up of PatchConflict.__init__ raise a proper PatchConflict; the
+model has a single error `conflict line_no` accordingly and the corpus keeps the
+two former findings (01, 02) as regression cases.
 
 Mutants this was built against (details in the final report):
   M1 diff.py   hunk header uses `i2 - i1 + 1`                     -> oracle (apply / parse)
@@ -40,6 +51,14 @@ Mutants this was built against (details in the final report):
   M11 diff.py  'equal' lines taken from a[j1:j2]                     -> oracle (apply)
   M12 (equivalent) `replace(b"+1,", b"+0,")` in the empty-new-text work-around -> clean
   H1 (harmless) unified_diff_bytes: loop rewritten with slices precomputed -> clean
+Improvement round (conflict reporting after fix fc5e87d, aimed perturbations):
+  N1 patches.py text ends inside a hunk: PatchConflict(hunk.orig_pos, ...)   -> oracle (line number)
+  N2 patches.py text ends before a hunk: PatchConflict(hunk.orig_pos, ...)   -> oracle (line number)
+  N3 patches.py mismatch reported at line_no - 1                             -> oracle (line number)
+  N4 patches.py bare next() inside the hunk loop again (RuntimeError)         -> oracle (not a PatchConflict)
+  N5 patches.py fuzzy patcher: skips up to 3 old lines until the hunk's first line matches -> oracle
+     (shift / dup-block / insert: output produced although the context is not at the hunk's position)
+  H2 (harmless) `next(orig_lines, None)` + test instead of try/except        -> clean
 (M2 and M3 do not change what breezy's own patcher produces; they are caught by
 the correspondence tie, M8 additionally by the re-parse oracle.)
 """
@@ -53,16 +72,22 @@ from vlib import env
 
 THEOREMS = [
     "apply_mkhunks", "parse_diff_text", "diff_text_applies", "serialise_parse_hunks", "diff_reserialises",
-    "no_newline_marker_roundtrip", "stats_balance_partial", "apply_ok_iff", "apply_conflict_on_mismatch",
+    "no_newline_marker_roundtrip", "grouped_validGroups", "diff_of_blocks_applies", "stats_eq_counts",
+    "stats_of_parsed_diff", "stats_balance", "apply_ok_iff", "apply_conflict_on_mismatch",
+    "apply_conflict_first_differing_line", "apply_ok_or_conflict", "diff_bytes_roundtrip", "diff_bytes_applies",
 ]
 RUST = ("patch-py",)
-RULE = ("all pairs of line lists over {a,b,c} up to a length x context sizes {0,1,2,3}, random longer texts "
-        "(edited copies; last/middle lines without newline; CR bytes), two matchers; perturbations of the old text "
-        "(change/delete/insert/truncate one line); non-trivial = the diff is non-empty")
+RULE = ("all pairs of line lists over {a,b,c} up to a length x context sizes {0,1,3}, random longer texts "
+        "(edited copies up to 30 lines; last/middle lines without newline; CR bytes; context sizes 0..50), long texts "
+        "(100-220 lines, 7-14 scattered edits), two matchers; perturbations of the old text (change/delete/insert/"
+        "truncate/append one line, truncate inside a hunk, shift, dup-block, swap, drop-prefix); "
+        "non-trivial = the diff is non-empty")
 ASSUMPTIONS = [
-    "the matcher's grouped opcodes satisfy validGroups (checked on every case: `vg`), its matching blocks satisfy "
-    "validBlocks and its grouping equals the model's specification of difflib (`grouped`), checked on every case",
-    "lines contain no newline except as their last byte",
+    "the matcher's matching blocks satisfy validBlocks (checked on every case: `vb`) and its grouping equals the "
+    "model's specification of difflib (`grouped`, checked on every case); that the grouping of valid blocks is a "
+    "valid grouped-opcode list is a theorem (grouped_validGroups), `vg` is still checked per case",
+    "byte-level theorems: files are split after every newline (BytesIO.readlines, checked per case: `splitnl`); the "
+    "line-list theorems hold for arbitrary byte-string lines",
 ]
 TRUSTED = [
     "patiencediff / difflib (matching blocks and grouped opcodes are inputs of the model, validated per case)",
@@ -137,10 +162,8 @@ def classify_exc(e):
     name = type(e).__name__
     if isinstance(e, patches.PatchConflict):
         return "E:Conflict:%d" % e.line_no
-    if isinstance(e, TypeError) and "bytes-like object is required" in str(e):
-        return "E:Conflict:TypeError"
     if isinstance(e, RuntimeError) and "StopIteration" in str(e):
-        return "E:Exhausted"
+        return "E:Truncated"              # iter_hunks: next() past the end of a truncated patch
     if isinstance(e, patches.MalformedHunkHeader):
         return "E:HunkHeader"
     if isinstance(e, patches.MalformedLine):
@@ -196,17 +219,8 @@ def impl_parse(plines):
 
 
 def apply_kind_equal(impl, model):
-    """T2 comparison of apply results: on the two conflict-reporting defect
-    families both the as-written and the intended error are accepted"""
-    if impl == model:
-        return True
-    if model.startswith("E:Conflict:") and impl == "E:Conflict:TypeError":
-        return True
-    if model == "E:Exhausted" and impl.startswith("E:Conflict:"):
-        return True
-    if model == "E:Truncated" and impl == "E:Exhausted":
-        return True                       # both are `next()` on an exhausted iterator inside a generator
-    return False
+    """T2 comparison of apply results: exact (output, error kind and PatchConflict line number)"""
+    return impl == model
 
 
 def reference_apply(orig, hunks):
@@ -224,6 +238,23 @@ def reference_apply(orig, hunks):
         out += orig[pos:start] + new
         pos = start + len(old)
     return out + orig[pos:]
+
+
+def reference_conflict_line(orig, hunks):
+    """independent reference for the reported line: the 1-based number of the first old
+    line that differs from a hunk's old side or is missing (absolute positions)"""
+    from breezy import patches
+    pos = 0
+    for h in hunks:
+        start = max(h.orig_pos - 1, pos)
+        if start > len(orig):
+            return len(orig) + 1
+        old = [l.contents for l in h.lines if not isinstance(l, patches.InsertLine)]
+        for k, want in enumerate(old):
+            if start + k >= len(orig) or orig[start + k] != want:
+                return start + k + 1
+        pos = start + len(old)
+    return None
 
 
 # --------------------------------------------------------------------------
@@ -266,10 +297,31 @@ def gen_pairs(ctx):
         elif r < 0.55 and len(a) > 2:
             k = rng.randrange(len(a) - 1)
             a[k] = a[k].rstrip(b"\n") or b"q"           # a middle line without newline
-        yield a, b, rng.choice([0, 1, 2, 3, 3, 5])
+        yield a, b, rng.choice([0, 1, 2, 3, 3, 5, 10, 50])
+    # long texts: many scattered edits, more than 6 hunks
+    for _ in range(ctx.pick(40, 400)):
+        la = rng.randrange(100, 220)
+        a = [b"l%d\n" % rng.randrange(40) if rng.random() < 0.7 else rng.choice(pool[:6]) for _ in range(la)]
+        b = list(a)
+        for _ in range(rng.randrange(7, 15)):
+            pos = rng.randrange(len(b) + 1)
+            r = rng.random()
+            if r < 0.35 and b:
+                del b[min(pos, len(b) - 1):min(pos, len(b) - 1) + rng.choice([1, 1, 2, 4])]
+            elif r < 0.7:
+                b[pos:pos] = [rng.choice(pool) for _ in range(rng.choice([1, 1, 2, 3]))]
+            elif b:
+                b[min(pos, len(b) - 1)] = b"edit%d\n" % rng.randrange(5)
+        if rng.random() < 0.3 and b:
+            b[-1] = b[-1].rstrip(b"\n") or b"z"
+        if rng.random() < 0.2 and a:
+            a[-1] = a[-1].rstrip(b"\n") or b"z"
+        yield a, b, rng.choice([0, 1, 2, 3, 3, 5, 10])
 
 
-def perturb(ctx, a):
+def perturb(ctx, a, hunks):
+    """perturbed old texts; `hunks` = the parsed hunks of the diff (positions to aim at)"""
+    from breezy import patches
     rng = ctx.rng
     outs = []
     if a:
@@ -280,6 +332,31 @@ def perturb(ctx, a):
     k = rng.randrange(len(a) + 1)
     outs.append(("insert", a[:k] + [b"PERTURBED\n"] + a[k:]))
     outs.append(("append", a + [b"tail\n"]))
+    if hunks:
+        h = rng.choice(hunks)
+        start = max(h.orig_pos - 1, 0)
+        old = [l.contents for l in h.lines if not isinstance(l, patches.InsertLine)]
+        if old:
+            # the text ends inside this hunk
+            outs.append(("truncate-in-hunk", a[:start + rng.randrange(len(old))]))
+            # the hunk's old side is present, but k lines late (copies of its own first line in front)
+            k = rng.choice([1, 1, 2, 3])
+            outs.append(("shift", a[:start] + [old[0]] * k + a[start:]))
+            # the hunk's old side duplicated in front of it: a fuzzy patcher would apply it there
+            q = rng.randrange(start + 1)
+            outs.append(("dup-block", a[:q] + old + a[q:]))
+            # ... and removed from its place, kept k lines earlier
+            if start >= 1:
+                e = rng.randrange(1, min(start, 3) + 1)
+                outs.append(("move-earlier", a[:start - e] + old + a[start - e:start] + a[start + len(old):]))
+        if len(old) >= 2:
+            q = rng.randrange(len(old) - 1)
+            if old[q] != old[q + 1]:
+                a2 = list(a)
+                a2[start + q], a2[start + q + 1] = a2[start + q + 1], a2[start + q]
+                outs.append(("swap", a2))
+        if start >= 1:
+            outs.append(("drop-prefix", a[rng.randrange(1, min(start, 3) + 1):]))
     return outs
 
 
@@ -305,24 +382,19 @@ class Batch:
         self.__init__()
 
 
-_fam_seen = {}
-
-
-def report_conflict_defect(ctx, case, what, res):
-    """the two known conflict-reporting defects flood the run: keep 20 concrete cases per family"""
-    fam = conflict_family(res)
-    ctx.count("conflict-defect:%s" % fam)
-    if fam is None or _fam_seen.get(fam, 0) < 20:
-        _fam_seen[fam] = _fam_seen.get(fam, 0) + 1
-        ctx.violation(case, what, family=fam)
-
-
-def conflict_family(res):
-    if res == "E:Conflict:TypeError":
-        return "patch-conflict-typeerror"
-    if res == "E:Exhausted":
-        return "patch-short-text-runtimeerror"
-    return None
+def check_conflict(ctx, case, orig, hunks, res):
+    """oracle for an old text that does not carry the hunks: PatchConflict with the right line"""
+    want = reference_conflict_line(orig, hunks)
+    if want is None:                      # overlapping hunks (never produced by breezy's diff): no reference
+        ctx.count("conflict-oracle-skipped")
+        if res.startswith("ok"):
+            ctx.violation(case, "hunks overlap but iter_patched produced output %s" % res)
+        return
+    if res.startswith("ok"):
+        ctx.violation(case, "old text does not match the hunks' context but iter_patched produced output %s" % res)
+    elif res != "E:Conflict:%d" % want:
+        ctx.violation(case, "mismatching old text must be reported as PatchConflict at line %d (first old line "
+                            "that differs or is missing); got %s" % (want, res))
 
 
 def one_case(ctx, batch, a, b, n, mname, matcher, do_perturb):
@@ -333,6 +405,12 @@ def one_case(ctx, batch, a, b, n, mname, matcher, do_perturb):
     groups = [[tuple(o) for o in g] for g in sm.get_grouped_opcodes(n)]
     d = do_diff(a, b, n, matcher)
     dl = split_nl(d)
+    if d:
+        # the diff as a byte stream read back line by line (theorem diff_bytes_roundtrip)
+        rl = BytesIO(d).readlines()
+        if rl != dl:
+            ctx.violation(case, "BytesIO(diff).readlines() differs from splitting after every newline: %r" % d)
+        batch.add(dict(case, check="splitnl"), "splitnl " + hx(d), hxl(rl))
     ha, hb, hg = hxl(a), hxl(b), enc_groups(groups)
     # assumptions about the external matcher, checked per case
     batch.add(dict(case, check="validGroups"), "vg %s %s %s" % (ha, hb, hg), "T")
@@ -341,7 +419,7 @@ def one_case(ctx, batch, a, b, n, mname, matcher, do_perturb):
     # the diff text
     batch.add(dict(case, check="diff-text"), "diff %s %s %s" % (ha, hb, hg), hxl(dl))
     ctx.case(case, nontrivial=bool(d))
-    ctx.count("diff:%s" % ("empty" if not d else "hunks=%d" % min(len(groups), 6)))
+    ctx.count("diff:%s" % ("empty" if not d else "hunks=%d" % min(len(groups), 12)))
     ctx.count("n=%d" % n)
     if not d:
         if a != b:
@@ -352,6 +430,20 @@ def one_case(ctx, batch, a, b, n, mname, matcher, do_perturb):
     if res != "ok " + hxl(b):
         ctx.violation(case, "iter_patched(old, diff(old,new)) = %s, expected the new text %s; diff=%r" % (res, hxl(b), d))
     batch.add(dict(case, check="apply"), "apply %s %s" % (ha, hxl(dl)), res, apply_kind_equal)
+    # oracle 1b: the same through files: old file -> readlines, diff -> readlines, output joined = new file
+    A, B = b"".join(a), b"".join(b)
+    if BytesIO(A).readlines() == a and BytesIO(B).readlines() == b:
+        ctx.count("bytes-level")
+        from breezy import patches
+        try:
+            out = b"".join(patches.iter_patched(BytesIO(A).readlines(), BytesIO(d).readlines()))
+        except BaseException as e:
+            if isinstance(e, (KeyboardInterrupt, SystemExit)):
+                raise
+            out = classify_exc(e)
+        if out != B:
+            ctx.violation(case, "patching the old FILE with the diff FILE gives %r, expected %r" % (out, B))
+        batch.add(dict(case, check="splitnl-old"), "splitnl " + hx(A), hxl(a))
     # oracle 2: parse / re-serialise / parse
     p = impl_parse(dl)
     if isinstance(p, str):
@@ -378,17 +470,14 @@ def one_case(ctx, batch, a, b, n, mname, matcher, do_perturb):
     batch.add(dict(case, check="stats"), "stats " + hxl(dl), "%d %d %d" % st)
     # oracle 4: perturbed old texts
     if do_perturb:
-        for kind, a2 in perturb(ctx, a):
+        for kind, a2 in perturb(ctx, a, p.hunks):
             c2 = dict(op="apply", orig=[x.hex() for x in a2], patch=[x.hex() for x in dl], perturbation=kind)
             r2 = impl_apply(a2, dl)
             ref = reference_apply(a2, p.hunks)
             ctx.case(c2, nontrivial=True)
             ctx.count("perturb:%s:%s" % (kind, "ok" if r2.startswith("ok") else r2.split(":")[1]))
             if ref is None:
-                if r2.startswith("ok"):
-                    ctx.violation(c2, "old text does not match the hunks' context but iter_patched produced output %s" % r2)
-                elif not r2.startswith("E:Conflict:") or r2 == "E:Conflict:TypeError":
-                    report_conflict_defect(ctx, c2, "mismatching old text is not reported as PatchConflict: %s" % r2, r2)
+                check_conflict(ctx, c2, a2, p.hunks, r2)
             else:
                 if r2 != "ok " + hxl(ref):
                     ctx.violation(c2, "old text matches every hunk; expected the spliced text %s, got %s" % (hxl(ref), r2))
@@ -425,7 +514,7 @@ def malformed(ctx, batch, dl, a):
         ctx.case(c, nontrivial=True)
         ctx.count("malformed:%s:%s" % (kind, "ok" if r.startswith("ok") else r[:20]))
         batch.add(c, "apply %s %s" % (hxl(a), hxl(ml)), r,
-                  lambda i, m: apply_kind_equal(i, m) or (i.startswith("ok") and m.startswith("ok") and i == m))
+                  apply_kind_equal)
 
 
 def run_corpus(ctx, batch):
@@ -453,10 +542,8 @@ def _replay_into(ctx, batch, case, ms):
         p = impl_parse(pl)
         if not isinstance(p, str):
             ref = reference_apply(orig, p.hunks)
-            if ref is None and r.startswith("ok"):
-                ctx.violation(case, "old text does not match the hunks' context but iter_patched produced output %s" % r)
-            elif ref is None and (not r.startswith("E:Conflict:") or r == "E:Conflict:TypeError"):
-                report_conflict_defect(ctx, case, "mismatching old text is not reported as PatchConflict: %s" % r, r)
+            if ref is None:
+                check_conflict(ctx, case, orig, p.hunks, r)
             elif ref is not None and r != "ok " + hxl(ref):
                 ctx.violation(case, "old text matches every hunk; expected %s, got %s" % (hxl(ref), r))
         batch.add(case, "apply %s %s" % (hxl(orig), hxl(pl)), r, apply_kind_equal)
@@ -464,7 +551,6 @@ def _replay_into(ctx, batch, case, ms):
 
 def run(ctx):
     os.environ["RUST_BACKTRACE"] = "0"
-    _fam_seen.clear()
     batch = Batch()
     run_corpus(ctx, batch)
     ms = matchers()
@@ -483,7 +569,6 @@ def run(ctx):
         if len(batch.lines) > 20000:
             batch.flush(ctx)
     batch.flush(ctx)
-    ctx.violations.sort(key=lambda v: v.get("family") is not None)
 
 
 def widen(ctx):
